@@ -146,9 +146,6 @@ def conforms(s, v):
 def providers_conform(case, obs_open):
     """every provider the OPEN run really opened returned a value its declared output schema accepts.
     echo providers declare `always'; a failing provider returns nothing (the run then has a diagnostic)."""
-    if case.get("outside_clause"):
-        # families that only serve the model-vs-implementation comparison of schemas declare themselves outside the clause
-        return False
     opened = set(e[1] for e in (obs_open.get("log") or []) if e[0] == "open")
     for n in opened:
         p = case.get("provs", {}).get(n)
@@ -624,7 +621,8 @@ EXTRA = {}
 CLASSES = {0: "outside_hypothesis", 1: "inside_accepted", 2: "inside_rejected_new", 3: "inside_rejected_known_several_classes",
            4: "inside_vocabulary_not_covered", 5: "inside_rejected_known_merge_required",
            6: "inside_rejected_known_merge_additional", 7: "inside_rejected_known_absent_is_never",
-           8: "inside_rejected_known_union_oneof", 9: "inside_rejected_known_merge_open_base"}
+           8: "inside_rejected_known_union_oneof", 9: "inside_rejected_known_merge_open_base",
+           10: "inside_rejected_known_merge_through_cut", 11: "inside_rejected_known_merge_optional_member"}
 CMP = {0: "agree", 1: "disagree", 2: "impl_schema_outside_model_vocabulary", 3: "no_model_schema",
        4: "agree_only_without_the_final_merge_of_evalEnvironment",
        5: "disagree_inside_history_class", 6: "agree_inside_history_class"}
@@ -645,10 +643,13 @@ def measure(prop, cases, r):
             continue
         if schema_part(c, m) is None:
             continue
-        qlines.append("(c06q (%s) %s)" % (" ".join(G.w_envdef(d) for d in all_defs(c)), schema_part(c, m)))
-        qidx.append(i)
         if c.get("schema_only"):
+            qlines.append("(c06q (%s) %s)" % (" ".join(G.w_envdef(d) for d in all_defs(c)), schema_part(c, m)))
+            qidx.append(i)
             continue
+        # with the world: class F (merge-through-cut) is decided on the evaluator model
+        qlines.append("(c06qw %s %s %s %s)" % (G.sx(c["name"]), G.w_envdef(c["def"]), G.w_world(c), schema_part(c, m)))
+        qidx.append(i)
         for k, (chk, show) in enumerate([(True, False), (True, True), (False, False)]):
             if "crash" in m[k] or "panic" in m[k] or m[k].get("loaderr"):
                 continue
@@ -696,9 +697,8 @@ def measure(prop, cases, r):
 # The family serves the comparison of the MODEL's schema with the implementation's only ("schema_cmp_only": wire kind c06h,
 # value / diagnostics flag / call log are not compared: the model's repeated unknown layers read a typed
 # additionalProperties as `true`, which can change a diagnostic - selftest/witness/C06-model-repeated-unknown-layer.replay.json).
-# Its worlds declare themselves outside the schema clause ("outside_clause": providers_conform answers False), because
-# references over null / scalar layers of imports run into a finding of their own that is not recorded
-# (selftest/witness/C06-schema-merge-through-cut.replay.json).
+# The schema clause's oracle judges this family as well (wire kind c06h carries the schema part): its references over null /
+# scalar layers of imports are where finding C06-schema-merge-through-cut was first seen.
 HKEYS = ["a", "b", "k", "z"]
 
 
@@ -802,7 +802,6 @@ def history_world(r):
                 ded.append((k, e))
         envs[n] = {"imports": imports, "values": r.shuffle(ded)}
     c = _world(envs, provs, "history/" + ("refs" if with_refs else "norefs"))
-    c["outside_clause"] = True
     c["schema_cmp_only"] = True
     return c
 
@@ -833,7 +832,6 @@ def history_regressions():
                        "root": {"imports": [("e1", True)], "values": [("z", ("obj", [("x", ("obj", []))])), ("a0", sym("z", "x"))]}},
                       p, "history/min2n"))
     for c in out:
-        c["outside_clause"] = True
         c["schema_cmp_only"] = True
     return out
 
@@ -884,6 +882,70 @@ def regression_worlds():
              "p2": {"in": "always", "out": sch2, "beh": "const", "const": G.xspec({"extra": ("num", "1")})}}
         out.append(_world({"base": {"imports": [], "values": [("o", ("open", "p2", ("obj", [])))]},
                            "root": {"imports": [("base", True)], "values": [("o", opn)]}}, p, "regression/E"))
+    # the other arm of E: the BASE's additionalProperties survives a top that has none (a bare `type: object` supplies members
+    # of any type); seen through a reader of such a member, and in the merged object itself
+    for sch2, c2 in (({"t": "object", "props": {}, "required": [], "addl": "boolean"}, G.xspec({"flag": True})),
+                     ({"t": "object", "props": {}, "required": [], "addl": "boolean"}, G.xspec({})),
+                     ({"t": "object", "props": {}, "required": [], "addl": "always"}, G.xspec({"flag": True})),
+                     ("object", G.xspec({"flag": True}))):
+        for sch in ("object", "always", {"t": "object", "props": {}, "required": [], "addl": "number"}):
+            p = {"p": {"in": "always", "out": sch, "beh": "const", "const": G.xspec({"user": ("num", "7")})},
+                 "p2": {"in": "always", "out": sch2, "beh": "const", "const": c2}}
+            out.append(_world({"base": {"imports": [], "values": [("o", ("open", "p2", ("obj", [])))]},
+                               "root": {"imports": [("base", True)],
+                                        "values": [("o", opn), ("c", ("sym", [("name", "o"), ("name", "user")]))]}}, p, "regression/E2"))
+    # F merge-through-cut: a reference copies its target with its chain; a non-object layer in that chain cuts the merge with
+    # the base of the referencing key, the parent's schema merge does not see it.  Cut layers: null, number, array, a provider
+    # output; one and two levels deep; and the neighbours that must be accepted (no reference: the fold sees the cut;
+    # no cut: the reference merges through; no base at the referencing key)
+    one, tru = ("num", "1"), ("bool", True)
+    sym = lambda *n: ("sym", [("name", x) for x in n])
+    for cut in (("null",), ("num", "0"), ("arr", [("obj", [])]), ("str", "s")):
+        out.append(_world({"e0": {"imports": [], "values": [("a", cut), ("z", ("obj", [("k", one)]))]},
+                           "root": {"imports": [("e0", True)], "values": [("a", ("obj", [("val", tru)])), ("z", sym("a"))]}},
+                          {}, "regression/F"))
+    out.append(_world({"e0": {"imports": [], "values": [("a", ("null",)), ("w", ("obj", [("z", ("obj", [("k", one)]))]))]},
+                       "root": {"imports": [("e0", True)],
+                                "values": [("a", ("obj", [("val", tru)])), ("w", ("obj", [("z", sym("a"))]))]}}, {}, "regression/F"))
+    out.append(_world({"e0": {"imports": [], "values": [("a", ("null",)), ("z", ("obj", [("k", ("obj", [("x", one)])), ("y", one)]))]},
+                       "root": {"imports": [("e0", True)],
+                                "values": [("a", ("obj", [("k", ("obj", [("val", tru)]))])), ("z", sym("a"))]}}, {}, "regression/F"))
+    # ... a second reference reads the referencing key (its own schema is right: only the PARENT's merge is wrong)
+    out.append(_world({"e0": {"imports": [], "values": [("a", ("null",)), ("z", ("obj", [("k", one)]))]},
+                       "root": {"imports": [("e0", True)],
+                                "values": [("a", ("obj", [("val", tru)])), ("z", sym("a")), ("y", sym("z")), ("s", ("tojson", sym("z")))]}},
+                      {}, "regression/F"))
+    # ... the cut two imports down, the reference in the middle one
+    out.append(_world({"e0": {"imports": [], "values": [("a", ("null",)), ("z", ("obj", [("k", one)]))]},
+                       "e1": {"imports": [("e0", True)], "values": [("a", ("obj", [("val", tru)])), ("z", sym("a"))]},
+                       "root": {"imports": [("e1", True)], "values": [("z", ("obj", [("top", one)]))]}}, {}, "regression/F"))
+    # ... a provider output above the cut
+    pf = {"p": {"in": "always", "out": {"t": "object", "props": {}, "required": [], "addl": "always"}, "beh": "const",
+                "const": G.xspec({"more": "x"})}}
+    out.append(_world({"e0": {"imports": [], "values": [("a", ("arr", [])), ("z", ("obj", [("k", one)]))]},
+                       "root": {"imports": [("e0", True)], "values": [("a", opn), ("z", sym("a"))]}}, pf, "regression/F"))
+    # ... neighbours
+    out.append(_world({"e0": {"imports": [], "values": [("z", ("obj", [("k", one)]))]},
+                       "e1": {"imports": [], "values": [("z", ("null",))]},
+                       "root": {"imports": [("e0", True), ("e1", True)], "values": [("z", ("obj", [("val", tru)]))]}},
+                      {}, "regression/Fn"))
+    out.append(_world({"e0": {"imports": [], "values": [("a", ("obj", [("j", one)])), ("z", ("obj", [("k", one)]))]},
+                       "root": {"imports": [("e0", True)], "values": [("a", ("obj", [("val", tru)])), ("z", sym("a"))]}},
+                      {}, "regression/Fn"))
+    out.append(_world({"e0": {"imports": [], "values": [("a", ("null",))]},
+                       "root": {"imports": [("e0", True)], "values": [("a", ("obj", [("val", tru)])), ("z", sym("a"))]}},
+                      {}, "regression/Fn"))
+    # G merge-optional-member: a literal merged over a member the base MAY have (an optional declared property / a member
+    # admitted by additionalProperties) inherits what that member's schema requires, although the provider returns no such member
+    inner = {"t": "object", "props": {"x": "string"}, "required": ["x"]}
+    for sch, cst in (({"t": "object", "props": {"opt": inner}, "required": []}, {}),
+                     ({"t": "object", "props": {}, "required": [], "addl": inner}, {}),
+                     ({"t": "object", "props": {"opt": inner}, "required": []}, {"opt": {"x": "s"}}),
+                     ({"t": "object", "props": {"opt": inner}, "required": ["opt"]}, {"opt": {"x": "s"}})):
+        p = {"p": {"in": "always", "out": sch, "beh": "const", "const": G.xspec(cst)}}
+        out.append(_world({"base": {"imports": [], "values": [("o", opn)]},
+                           "root": {"imports": [("base", True)], "values": [("o", ("obj", [("opt", ("obj", [("y", one)]))]))]}},
+                          p, "regression/G"))
     # providers that do NOT return what they declare: check's schema rejects the opened value, the hypothesis excludes the case
     for sch in ("array", {"t": "object", "props": {"user": "number"}, "required": ["user"], "addl": "never"}):
         p = {"p": {"in": "always", "out": sch, "beh": "const", "const": const}}
